@@ -1304,6 +1304,11 @@ where
                 })
             })
             .and_then(|size: usize| {
+                if size == 0 {
+                    // A zero-length element is an empty value, not a null.
+                    // `read_n_bytes` would report the latter if it is the last one.
+                    return Ok(Some(FrameSlice::new_empty()));
+                }
                 self.slice.read_n_bytes(size).map_err(|err| {
                     mk_deser_err::<Self>(
                         self.collection_type,
